@@ -21,6 +21,24 @@ claimed={
  "C14": dict(text="Deductive proof of the optional-value constructors String/Int32/UInt32/Int64/UInt64/Bool: nil maps to unset, a value of the wrapper's own type to exactly that value in a fresh wrapper.",
              note="OCI round trips, Copy, event-mask print/parse not yet covered. "+TB, ref="5 C14"),
 }
+claimed.update({
+ "C06": dict(text="Deductive proof that every request/event dispatch loop (StateChange and its nine wrappers, UpdatePodSandbox, Create/Update/StopContainer) holds the adaptation lock exactly once around all relays, calls the relay of each plugin of the sorted list once and in slice order until a veto, passes the request unchanged, and prunes closed plugins; that each relay calls the implementation exactly when the event is subscribed; that sortPlugins orders by index (sort.Slice model) and that string order equals numeric order for two-digit indices (lemma).",
+             note="result.apply is used through a static write-set frame only (trusted, no functional claim). Delivery inside ttrpc and the plugin process is outside the claim. "+TB, ref="5 C06"),
+ "C07": dict(text="Deductive proof, for every (response, error) pair an implementation call can return, that a fatal error closes the plugin and lets the request continue with (nil, nil), a non-fatal error is returned as a veto, every implementation call carries a deadline created by context.WithTimeout, and no obligation of the relays/loops can panic.",
+             note="Wall-clock bounds, byte-level transport faults and deadlock freedom inside ttrpc are not decidable by contracts (restricted claim). "+TB, ref="5 C07"),
+ "C09": dict(text="Deductive proof of plugin.synchronize (slice bounds within the remaining lists, termination measure, the final accepted message covers the rest of both lists, failure closes the plugin), recalcObjsPerSyncMsg (bounds, strict progress, non-zero counts; real arithmetic for the float scaling) and the stub's collectSync/deliverSync (one handler call with the concatenation of all collected chunks).",
+             note="The concatenation of the intermediate accepted chunks is argued inductively from the loop invariant (see DESIGN.md); transport size accounting inside ttrpc is out of scope. "+TB, ref="5 C09"),
+ "C10": dict(text="Deductive proof of the write-side framing (mux.write: each iteration writes one header (id, size) and exactly the next size<=max bytes of the buffer under a single hold of the write lock; loop ends when the buffer is consumed) and of mux.Open (same id gives the same connection; queue capacity is the configured length).",
+             note="The reader goroutine and conn.Read are not yet under contract; scheduler fairness and the bytes inside the trunk are out of scope. "+TB, ref="5 C10"),
+ "C11": dict(text="Deductive proof of the fail-stop typestate: error latched once (setError/error), doneC channels closed only inside sync.Once (no double close), mux.Close closes every connection, the trunk and doneC exactly once and is idempotent, conn.Close takes the connection lock without re-entrance, a partial trunk write latches the error and closes the multiplexer.",
+             note="'Returns promptly' (liveness) and the reader goroutine are not covered (restricted claim). "+TB, ref="5 C11"),
+ "C15": dict(text="Deductive proof that setupHandlers sets handler k to the bound method of the plugin and subscription bit k exactly when the plugin implements interface k (plus a bit-vector lemma for the mask), that Configure clamps/rejects masks as documented and reports the result once, and that every request/event is dispatched to exactly the handler for it with the message's objects and returns the handler's results unchanged.",
+             note="Interface satisfaction of the plugin's dynamic type is an uninterpreted predicate per interface. "+TB, ref="5 C15"),
+ "C17": dict(text="Deductive proof of RegisterPlugin (empty name or non-two-digit index rejected and reported on the registration channel once; otherwise identity recorded), configure (mask validation for all 2^32 masks; call carries a deadline) and CheckPluginIndex.",
+             note="plugin.start, the accept loop and the socket directory mode are not yet under contract; timeouts as wall-clock are out of scope. "+TB, ref="5 C17"),
+ "C19": dict(text="Deductive proof that an unsolicited update reaches the runtime's update callback exactly once, with the plugin's list, under the adaptation lock (the same lock that serialises all requests), that results are passed back unchanged, and that an unstarted stub returns ErrNoService without calling the runtime.",
+             note="Mutual exclusion follows from sync.Mutex semantics (trusted). "+TB, ref="5 C19"),
+})
 na_reason={
  "C12": "one of the two codecs is protobuf-go's reflection runtime (no code in /repo to put a contract on); the generated vtproto code needs induction over a recursive wire format that the installed solvers return unknown on (DESIGN.md section 5, C12)",
 }
